@@ -26,6 +26,7 @@ UNITS = {
     "u26_skipper": {"verus": "specs/u26_skipper.vt.rs"},
     "u27_hydrate_list": {"verus": "specs/u27_hydrate_list.vt.rs"},
     "u28_valuemeta": {"verus": "specs/u28_valuemeta.vt.rs"},
+    "u29_hexane_prefix": {"verus": "specs/u29_hexane_prefix.vt.rs"},
 }
 CHUNK = "rust/automerge/src/storage/chunk.rs"
 EXID = "rust/automerge/src/exid.rs"
@@ -263,7 +264,7 @@ PROPERTIES.update({
     "C15": {
         "level": "proof",
         "verus": [("u02_parse", "*"), ("u01_bloom", ["parse", "get_probes", "contains_hash", "add_hash", "set_bit"]), ("u04_ids", ["exid_to_opid", "op_cursor_to_opid", "new"]),
-                  ("u04c_codecs", ["try_from", "parse_0"]), ("u06v_hexane_str", "*"), ("u15_colids", ["try_next", "try_load", "new", "root", "from"]), ("u19_import", "*"), ("u28_valuemeta", "*")],
+                  ("u04c_codecs", ["try_from", "parse_0"]), ("u06v_hexane_str", "*"), ("u15_colids", ["try_next", "try_load", "new", "root", "from"]), ("u19_import", "*"), ("u28_valuemeta", "*"), ("u29_hexane_prefix", "*")],
         "kani": ["u04_changehash_try_from_slice", "u15_try_load_total", "u15_raw_read_bytes", "u17_from_raw_string_valid", "u02k_length_prefixed_total", "u02k_apply_n_total", "u06_codec_reads_agree", "u01_parse_wf_quick", "u01_parse_wf_thorough", "u01_query_total", "u03_header_parse_q", "u03_header_parse_t", "u03_chunktype_codes",
                  "u04_exid_try_from_total_q", "u04_exid_try_from_total_t", "u04_cursor_from_str_total_q",
                  "u05_flags_parse_bytes",
@@ -320,7 +321,7 @@ PROPERTIES.update({
     },
     "C35": {
         "level": "proof",
-        "verus": [("u06v_hexane_str", "*")],
+        "verus": [("u06v_hexane_str", "*"), ("u29_hexane_prefix", "*")],
         "kani": ["u06_codec_reads_agree", "u06_leb_unsigned_roundtrip", "u06_leb_signed_roundtrip", "u06_int_unpack_total", "u06_narrow_unpack_total", "u06_string_unpack_q", "u06_string_unpack_t",
                  "u06_string_unpack_huge_len", "u06_rle_segment_total_u64", "u06_rle_segment_total_i64", "u06_rle_segment_utf8"],
         "not_under_contract": ["Column::load / load_with / save / save_to", "slabs, B-tree index, splice, RLE loader (rle/load.rs), bool and delta encodings, encoder.rs", "value pack() into Vec"],
